@@ -289,6 +289,17 @@ impl Consumer {
         let mut empty = true;
         let retry_partitions = &mut self.state.retry_partitions;
 
+        // ~ fail before updating any fetch offset if some partition
+        // reports an error; otherwise the messages of the partitions
+        // processed before it would be skipped for good
+        for resp in &resps {
+            for t in resp.topics() {
+                for p in t.partitions() {
+                    p.data()?;
+                }
+            }
+        }
+
         for resp in &resps {
             for t in resp.topics() {
                 let topic_ref = self
